@@ -57,7 +57,7 @@ Section Monitor.
                                            end
                         | _ => None
                         end
-    | LRecv _ n i => match lookup m i with
+    | LRecv _ n i _ => match lookup m i with
                      | Some (PNode a) => if Nat.eqb a n then Some (setp m i (PRecv n)) else None
                      | _ => None
                      end
